@@ -46,3 +46,6 @@ IO/Equiv.vos IO/Equiv.vok IO/Equiv.required_vos: IO/Equiv.v Base/QSum.vos LP/Use
 IO/Bounds.vo IO/Bounds.glob IO/Bounds.v.beautified IO/Bounds.required_vo: IO/Bounds.v Base/QSum.vo
 IO/Bounds.vio: IO/Bounds.v Base/QSum.vio
 IO/Bounds.vos IO/Bounds.vok IO/Bounds.required_vos: IO/Bounds.v Base/QSum.vos
+IO/Ranges.vo IO/Ranges.glob IO/Ranges.v.beautified IO/Ranges.required_vo: IO/Ranges.v Base/QSum.vo
+IO/Ranges.vio: IO/Ranges.v Base/QSum.vio
+IO/Ranges.vos IO/Ranges.vok IO/Ranges.required_vos: IO/Ranges.v Base/QSum.vos
